@@ -114,7 +114,8 @@ pub fn child(args: &Args) {
         name => Some(cfr::params(&cfr::preset(name))),
     };
     let meth = cfr::method(case["method"].as_str().unwrap());
-    let budget = case["budget"].as_u64().unwrap();
+    // ("max": no limit - the largest budget there is)
+    let budget = if case["budget"].as_str() == Some("max") { u64::MAX } else { case["budget"].as_u64().unwrap() };
     let thr = threshold(case["thr"].as_str().unwrap());
     let k = threads(case["threads"].as_str().unwrap());
     let game = tree::build(t).expect("zoo game");
